@@ -59,7 +59,7 @@ def tree_spec(rng, leaf_labels, shape="binary", lengths="float", internal_labels
     if n == 0:
         root = [None, None, []]
     elif n == 1:
-        root = leaves[0] if shape != "unifurc" else inner([leaves[0]])
+        root = leaves[0] if shape not in ("unifurc", "unifurc_root") else inner([leaves[0]])
     elif shape == "star":
         root = inner(leaves)
     elif shape == "caterpillar":
@@ -87,8 +87,11 @@ def tree_spec(rng, leaf_labels, shape="binary", lengths="float", internal_labels
             picked = [pool.pop(rng.randrange(len(pool))) for _ in range(k)]
             pool.append(inner(picked))
         root = pool[0]
-        if shape == "unifurc":
+        if shape in ("unifurc", "unifurc_root"):
             root = _add_unifurcations(rng, root, inner)
+        if shape == "unifurc_root":
+            # the seed node itself has outdegree one (not part of SHAPES: asked for by name)
+            root = inner([root])
     if not root_length:
         root[1] = None
     return root
